@@ -12,6 +12,7 @@ pub fn expressions(tier: Tier) -> Vec<String> {
         "@", "a", "a.b", "a[0]", "a[*].b", "length(@)", "keys(@)", "'é😀'", "`18446744073709551615`", "`1.5e300`", "to_string(@)",
         "a || b", "a[?b > `1`]", "*", "[a, b]", "{x: a}", "\"é\"", "sum(a)", "abs('x')", "nosuch(@)", "length(@, @)", "a[::0]", "a[",
         "", "a b", "`{`", "\"unterminated", "a.\n b", "'\n'", "type(@)", "@ == @", "`null`", "`\"\"`", "b", "'<\\'>'", "`\"\\u0000\\u2028\"`",
+        "'x\r\ny'", "join('\r\n', keys(@))", "'\r'", "a\r\n.\r\nb",
     ]
     .iter()
     .map(|s| s.to_string())
@@ -19,6 +20,19 @@ pub fn expressions(tier: Tier) -> Vec<String> {
     if tier == Tier::Thorough {
         for s in ["a.b.c", "a[-1]", "a[1:]", "a[].b", "max_by(a, &b)", "sort(a)", "join(', ', a)", "`[1, 2.50, -0.0, 1e2]`", "a | [0]", "!a", "a && b", "`{\"k\": {\"k\": [1, {\"k\": null}]}}`", "  @  ", "\t\n@", "é", "a..b", "&a", "[ ]", "a[*][b]", "-"] {
             v.push(s.to_string());
+        }
+    }
+    v
+}
+
+/// long failing expressions: the diagnosis echoes the expression (truncation limits live here)
+pub fn long_expressions() -> Vec<String> {
+    let mut v = Vec::new();
+    for n in [400usize, 511, 512, 700, 1023, 1024, 1025, 2000, 4096, 5000] {
+        for pad in 0..2 {
+            v.push(format!("{}'{}' {{", " ".repeat(pad), "é".repeat(n)));
+            v.push(format!("{}abs('{}')", " ".repeat(pad), "é".repeat(n)));
+            v.push(format!("{}length('{}')", " ".repeat(pad), "é".repeat(n)));
         }
     }
     v
@@ -53,6 +67,10 @@ pub enum InSrc {
     File,
     MissingFile,
     Directory,
+    /// `-f /dev/stdin` with the document piped in (a readable non-regular file)
+    DevStdin,
+    /// `-f` naming a FIFO that another thread writes the document to
+    Fifo,
 }
 
 #[derive(Clone, Debug)]
@@ -92,7 +110,7 @@ pub fn expectation(c: &Case) -> Expect {
     }
     match c.is {
         InSrc::MissingFile | InSrc::Directory => return Expect::Failure("unreadable input file"),
-        _ => {}
+        InSrc::Stdin | InSrc::File | InSrc::DevStdin | InSrc::Fifo => {}
     }
     let text = match String::from_utf8(c.input.clone()) {
         Ok(t) => t,
@@ -124,6 +142,7 @@ pub struct RunOut {
 }
 
 pub fn run_jp(jp: &str, c: &Case, dir: &std::path::Path, id: usize) -> RunOut {
+    let reads_input = !c.ast && c.es != ExprSrc::MissingFile && jmespath::compile(&c.expr).is_ok();
     let ef = dir.join(format!("e{}", id));
     let inf = dir.join(format!("i{}", id));
     let mut cmd = Command::new(jp);
@@ -149,6 +168,16 @@ pub fn run_jp(jp: &str, c: &Case, dir: &std::path::Path, id: usize) -> RunOut {
         InSrc::Directory => {
             cmd.arg("-f").arg(dir);
         }
+        InSrc::DevStdin => {
+            cmd.arg("-f").arg("/dev/stdin");
+        }
+        InSrc::Fifo => {
+            let c = std::ffi::CString::new(inf.to_str().unwrap()).unwrap();
+            unsafe {
+                libc::mkfifo(c.as_ptr(), 0o600);
+            }
+            cmd.arg("-f").arg(&inf);
+        }
     }
     if c.unquoted {
         cmd.arg("-u");
@@ -161,13 +190,35 @@ pub fn run_jp(jp: &str, c: &Case, dir: &std::path::Path, id: usize) -> RunOut {
     }
     cmd.stdin(Stdio::piped()).stdout(Stdio::piped()).stderr(Stdio::piped());
     let mut child = cmd.spawn().expect("spawn jp");
+    let fifo_writer = if c.is == InSrc::Fifo && reads_input {
+        // feed the FIFO from another thread; open non-blocking first so that a jp which never opens it cannot hang us
+        let path = inf.clone();
+        let data = c.input.clone();
+        Some(std::thread::spawn(move || {
+            use std::os::unix::fs::OpenOptionsExt;
+            for _ in 0..400 {
+                match std::fs::OpenOptions::new().write(true).custom_flags(libc::O_NONBLOCK).open(&path) {
+                    Ok(mut f) => {
+                        let _ = f.write_all(&data);
+                        return;
+                    }
+                    Err(_) => std::thread::sleep(std::time::Duration::from_millis(5)),
+                }
+            }
+        }))
+    } else {
+        None
+    };
     {
         let mut si = child.stdin.take().unwrap();
-        if c.is == InSrc::Stdin {
+        if c.is == InSrc::Stdin || c.is == InSrc::DevStdin {
             let _ = si.write_all(&c.input);
         }
     }
     let o = child.wait_with_output().expect("wait jp");
+    if let Some(h) = fifo_writer {
+        let _ = h.join();
+    }
     std::fs::remove_file(&ef).ok();
     std::fs::remove_file(&inf).ok();
     RunOut { code: o.status.code(), stdout: o.stdout, stderr: o.stderr }
@@ -221,6 +272,28 @@ pub fn run(tier: Tier) -> i32 {
                         for ast in [false, true] {
                             cases.push(Case { expr: e.clone(), input: i.clone(), es, is, unquoted, ast });
                         }
+                    }
+                }
+            }
+        }
+    }
+    // non-regular input files (a FIFO, /dev/stdin): every expression x input, without --ast
+    for e in expressions(tier) {
+        for i in inputs(tier) {
+            for es in [ExprSrc::Arg, ExprSrc::File] {
+                for is in [InSrc::DevStdin, InSrc::Fifo] {
+                    cases.push(Case { expr: e.clone(), input: i.clone(), es, is, unquoted: false, ast: false });
+                }
+            }
+        }
+    }
+    // long expressions on a few inputs through both expression sources
+    for e in long_expressions() {
+        for i in [b"null".to_vec(), b"{\"a\":1}".to_vec(), b"{".to_vec()] {
+            for es in [ExprSrc::Arg, ExprSrc::File] {
+                for is in [InSrc::Stdin, InSrc::File] {
+                    for unquoted in [false, true] {
+                        cases.push(Case { expr: e.clone(), input: i.clone(), es, is, unquoted, ast: false });
                     }
                 }
             }
@@ -289,7 +362,7 @@ pub fn replay(case: &Value) -> Option<(String, bool)> {
         expr: case["expression"].as_str()?.to_string(),
         input: case["input_bytes"].as_array()?.iter().map(|b| b.as_u64().unwrap() as u8).collect(),
         es: match case["expr_source"].as_str()? { "Arg" => ExprSrc::Arg, "File" => ExprSrc::File, _ => ExprSrc::MissingFile },
-        is: match case["input_source"].as_str()? { "Stdin" => InSrc::Stdin, "File" => InSrc::File, "MissingFile" => InSrc::MissingFile, _ => InSrc::Directory },
+        is: match case["input_source"].as_str()? { "Stdin" => InSrc::Stdin, "File" => InSrc::File, "MissingFile" => InSrc::MissingFile, "DevStdin" => InSrc::DevStdin, "Fifo" => InSrc::Fifo, _ => InSrc::Directory },
         unquoted: case["unquoted"].as_bool()?,
         ast: case["ast"].as_bool()?,
     };
